@@ -819,7 +819,11 @@ def fixup_resize(op: Operation, arch, nng) -> Operation:
         if op.ifm_shapes[0] == op.ofm_shapes[0]:
             # Bypass the resize op which is essentially a NOP
             op.inputs = op.inputs[:1]
-            op.type = Op.Identity
+            if any(op.ofm in sg.output_tensors for sg in nng.subgraphs):
+                # A network output must be preserved: copy instead of replacing the tensor with the IFM
+                op.type = Op.Memcpy
+            else:
+                op.type = Op.Identity
         elif op.ifm_shapes[0].height == 1 and op.ifm_shapes[0].width == 1:
             convert_resize_1x1_to_add(op)
         elif op.type == Op.ResizeBilinear and op.attrs.get("half_pixel_centers", False):
